@@ -505,3 +505,297 @@ theorem rset_won (s : St) (ms : SetSt) (hR : RSet s ms) (p w : Nat) (i : PW) (hi
     · exact ⟨j, by simp only; rw [getElem?_set_ne' _ _ _ _ (fun e => hqp e.symm)]; exact hj, hjw⟩
 
 end UtilModel.Promise
+
+namespace UtilModel.Promise
+open UtilModel
+
+theorem set_sim_internal (s s' : St) (e : Ev) (ms : SetSt) (hR : RSet s ms)
+    (hs : step s e = some s') (ho : e.obs = none) : RSet s' ms := by
+  have := rset_next s s' e ms ms.b hR hs (by intro q h; subst h; simp [Ev.obs] at ho)
+    (by intro t h; subst h; simp [Ev.obs] at ho) (rk_internal s s' e ms.b hR.inv hR.rk hs ho)
+  exact this
+
+theorem set_sim_obs (s s' : St) (e : Ev) (o : Obs) (ms : SetSt) (hR : RSet s ms)
+    (hs : step s e = some s') (ho : e.obs = some o) :
+    ∃ ms', monC11set.step ms o = some ms' ∧ RSet s' ms' := by
+  have hi := hR.inv
+  have hrk' := rk_obs s s' e o ms.b hi hR.rk hs ho
+  -- the events on which the monitor only updates its bookkeeping
+  have plain : (∀ q, e ≠ .newp q) → (∀ t r, e ≠ .retSet t r) → (∀ t v x, e ≠ .retAwait t v x) →
+      monC11set.step ms o = some { ms with b := ms.b.update o } →
+      ∃ ms', monC11set.step ms o = some ms' ∧ RSet s' ms' := by
+    intro h1 h2 h3 hm
+    exact ⟨_, hm, rset_next s s' e ms _ hR hs h1 (fun t => h2 t true) hrk'⟩
+  cases e with
+  | swap t => simp [Ev.obs] at ho
+  | publish t => simp [Ev.obs] at ho
+  | awSel t br => simp [Ev.obs] at ho
+  | cWCS t => simp [Ev.obs] at ho
+  | cSample t => simp [Ev.obs] at ho
+  | cNilSel t br => simp [Ev.obs] at ho
+  | cInnerSel t br => simp [Ev.obs] at ho
+  | cChk1 t => simp [Ev.obs] at ho
+  | cChk2 t => simp [Ev.obs] at ho
+  | invSet t p v x => simp [Ev.obs] at ho; subst ho; exact plain (by simp) (by simp) (by simp) rfl
+  | invAwait t p k => simp [Ev.obs] at ho; subst ho; exact plain (by simp) (by simp) (by simp) rfl
+  | envCancel t => simp [Ev.obs] at ho; subst ho; exact plain (by simp) (by simp) (by simp) rfl
+  | envFire t f => simp [Ev.obs] at ho; subst ho; exact plain (by simp) (by simp) (by simp) rfl
+  | invCSetP t p => simp [Ev.obs] at ho; subst ho; exact plain (by simp) (by simp) (by simp) rfl
+  | retCSetP t => simp [Ev.obs] at ho; subst ho; exact plain (by simp) (by simp) (by simp) rfl
+  | invCRes t v x => simp [Ev.obs] at ho; subst ho; exact plain (by simp) (by simp) (by simp) rfl
+  | retCRes t => simp [Ev.obs] at ho; subst ho; exact plain (by simp) (by simp) (by simp) rfl
+  | invCAwait t k => simp [Ev.obs] at ho; subst ho; exact plain (by simp) (by simp) (by simp) rfl
+  | quiesce bb B => simp [Ev.obs] at ho; subst ho; exact plain (by simp) (by simp) (by simp) rfl
+  | newp q =>
+    simp [Ev.obs] at ho; subst ho
+    have hs0 := hs
+    simp only [step] at hs; split at hs <;> simp at hs; subst hs
+    refine ⟨{ ms with pw := ms.pw ++ [{}], b := ms.b.update (.newp q) }, rfl, ?_⟩
+    refine ⟨step_inv s _ _ hi hs0, hrk', by simp [hR.len], ?_, ?_, ?_, ?_⟩
+    · intro p i w hp hw
+      simp only at hp
+      rcases getElem?_snoc_cases _ _ _ _ hp with ⟨_, hx⟩ | ⟨_, rfl⟩
+      · exact winner_mono_step s _ _ hs0 p w (hR.won p i w hx hw)
+      · cases hw
+    · intro p i L hp hL
+      simp only at hp
+      rcases getElem?_snoc_cases _ _ _ _ hp with ⟨_, hx⟩ | ⟨_, rfl⟩
+      · obtain ⟨w, h1, h2⟩ := hR.cands p i L hx hL
+        exact ⟨w, h1, winner_mono_step s _ _ hs0 p w h2⟩
+      · cases hL
+    · exact hR.lost
+    · intro t th p v x ht hts
+      obtain ⟨i, h1, h2⟩ := hR.retTrue t th p v x ht hts
+      exact ⟨i, getElem?_snoc_left _ _ _ _ h1, h2⟩
+  | retSet t r =>
+    simp [Ev.obs] at ho; subst ho
+    have hs0 := hs
+    simp only [step] at hs
+    split at hs <;> try simp at hs
+    rename_i th ht
+    split at hs <;> try simp at hs
+    rename_i p v x r' hts
+    obtain ⟨rfl, rfl⟩ := hs
+    have hl : t < ms.b.calls.length := by rw [hR.rk.len]; exact lt_of_getElem? ht
+    obtain ⟨c, hc⟩ : ∃ c, ms.b.calls[t]? = some c := ⟨ms.b.calls[t], by simp⟩
+    have hk := hR.rk.call t th c ht hc
+    have hkind : c.kind = .set p x := by rw [hk.kind, hts]; rfl
+    have hret : c.ret = false := by rw [hk.ret, hts]; rfl
+    have hok := hi.th t th ht
+    simp only [ThOK, hts] at hok
+    obtain ⟨hv, hok2⟩ := hok
+    cases r with
+    | true =>
+      simp only [if_true] at hok2
+      obtain ⟨hw, hpub⟩ := hok2
+      have hp : p < s.proms.length := by
+        simp only [winnerOf] at hw
+        cases hpp : s.proms[p]? with
+        | none => simp [hpp] at hw
+        | some pr => exact lt_of_getElem? hpp
+      obtain ⟨i, hpi, hwin⟩ := winBy_ok s ms hR p t hp hw
+      refine ⟨_, by simp [monC11set, hc, hkind, hret, hwin]; rfl, ?_⟩
+      have h1 := rset_won s ms hR p t i hpi hw
+      -- now the model step: the winner returns
+      refine ⟨step_inv s _ _ hi hs0, hrk', by simp [hR.len, setTs], ?_, ?_, ?_, ?_⟩
+      · intro q j w hq hjw
+        exact winner_mono_step s _ _ hs0 q w (h1.won q j w hq hjw)
+      · intro q j L hq hL
+        obtain ⟨w, h2, h3⟩ := h1.cands q j L hq hL
+        exact ⟨w, h2, winner_mono_step s _ _ hs0 q w h3⟩
+      · intro u hu
+        obtain ⟨thu, q, v', x', h2, h3⟩ := h1.lost u hu
+        obtain ⟨th', h4, h5⟩ := done_stable_step s _ _ hs0 u thu h2 (by rw [h3]; rfl)
+        exact ⟨th', q, v', x', h4, by rw [h5, h3]⟩
+      · intro u thu' q v' x' hu' hts'
+        rcases setDone_backward s _ _ hs0 u thu' q v' x' hu' hts' with ⟨thu, h2, h3⟩ | ⟨h2, thu, h3, h4⟩
+        · exact h1.retTrue u thu q v' x' h2 h3
+        · cases h2
+          rw [ht] at h3; cases h3
+          rw [hts] at h4; cases h4
+          exact ⟨{ i with won := some t }, by simp [lt_of_getElem? hpi], rfl⟩
+    | false =>
+      simp only [Bool.false_eq_true, if_false] at hok2
+      obtain ⟨w, hw, hne⟩ := hok2
+      have hp : p < s.proms.length := by
+        simp only [winnerOf] at hw
+        cases hpp : s.proms[p]? with
+        | none => simp [hpp] at hw
+        | some pr => exact lt_of_getElem? hpp
+      have hlp : p < ms.pw.length := by rw [hR.len]; exact hp
+      obtain ⟨i, hpi⟩ : ∃ i, ms.pw[p]? = some i := ⟨ms.pw[p], by simp⟩
+      -- whatever the monitor records, the relation follows from these two facts
+      have hnt : i.won ≠ some t := by
+        intro h; have := hR.won p i t hpi h; rw [hw] at this; cases this; exact hne rfl
+      have finish : ∀ (ms1 : SetSt), ms1.b = ms.b → ms1.lost = ms.lost → RSet s ms1 →
+          RSet (setTs s t th (.setDone p v x false))
+            { ms1 with b := ms.b.update (.retSet t false), lost := t :: ms.lost } := by
+        intro ms1 hb hlost h1
+        refine ⟨step_inv s _ _ hi hs0, hrk', by simp [h1.len, setTs], ?_, ?_, ?_, ?_⟩
+        · intro q j w' hq hjw
+          exact winner_mono_step s _ _ hs0 q w' (h1.won q j w' hq hjw)
+        · intro q j L hq hL
+          obtain ⟨w', h2, h3⟩ := h1.cands q j L hq hL
+          exact ⟨w', h2, winner_mono_step s _ _ hs0 q w' h3⟩
+        · intro u hu
+          simp only [List.mem_cons] at hu
+          rcases hu with rfl | hu
+          · exact ⟨{ th with ts := .setDone p v x false }, p, v, x, by simp [setTs, lt_of_getElem? ht], rfl⟩
+          · obtain ⟨thu, q, v', x', h2, h3⟩ := hR.lost u hu
+            obtain ⟨th', h4, h5⟩ := done_stable_step s _ _ hs0 u thu h2 (by rw [h3]; rfl)
+            exact ⟨th', q, v', x', h4, by rw [h5, h3]⟩
+        · intro u thu' q v' x' hu' hts'
+          rcases setDone_backward s _ _ hs0 u thu' q v' x' hu' hts' with ⟨thu, h2, h3⟩ | ⟨h2, _⟩
+          · exact h1.retTrue u thu q v' x' h2 h3
+          · cases h2
+      by_cases hws : i.won.isSome = true
+      · refine ⟨_, by simp [monC11set, hc, hkind, hret, hpi, hnt, hws]; rfl, ?_⟩
+        exact finish ms rfl rfl hR
+      · have hwn : i.won = none := by simpa using hws
+        -- the real winner is among the candidates the monitor keeps
+        have hwL : w ∈ lostCands ms.b i p t := by
+          unfold lostCands
+          cases hcd : i.cands with
+          | some L0 =>
+            obtain ⟨w', hm, hw'⟩ := hR.cands p i L0 hpi hcd
+            rw [hw] at hw'; cases hw'
+            simp [hm, hne]
+          | none =>
+            -- the winner is a pending `SetResult` on p
+            simp only [winnerOf] at hw
+            cases hpp : s.proms[p]? with
+            | none => simp [hpp] at hw
+            | some pr =>
+              simp [hpp] at hw
+              obtain ⟨thw, hthw, hws'⟩ := (hi.pr p pr hpp).2 w hw
+              have hwl : w < ms.b.calls.length := by rw [hR.rk.len]; exact lt_of_getElem? hthw
+              obtain ⟨cw, hcw⟩ : ∃ cw, ms.b.calls[w]? = some cw := ⟨ms.b.calls[w], by simp⟩
+              have hkw := hR.rk.call w thw cw hthw hcw
+              have hnd : thw.ts.isDone = false := by
+                rcases hws' with ⟨e', hh⟩ | ⟨e', hh⟩ | ⟨e', hh⟩
+                · rw [hh]; rfl
+                · rw [hh]; rfl
+                · exfalso
+                  obtain ⟨j, hj, hjw⟩ := hR.retTrue w thw p (w + 1) e' hthw hh
+                  rw [hpi] at hj; cases hj; rw [hwn] at hjw; cases hjw
+              have hkw2 : ∃ e', cw.kind = .set p e' := by
+                rcases hws' with ⟨e', hh⟩ | ⟨e', hh⟩ | ⟨e', hh⟩ <;> exact ⟨e', by rw [hkw.kind, hh]; rfl⟩
+              obtain ⟨e', hkw2⟩ := hkw2
+              simp only [pendingSets, List.mem_filter, List.mem_range]
+              refine ⟨hwl, ?_⟩
+              simp [hcw, hkw.ret, hnd, hkw2, hne]
+        have hne' : ¬ lostCands ms.b i p t = [] := by
+          intro hL; rw [hL] at hwL; cases hwL
+        refine ⟨{ ms with pw := ms.pw.set p { i with cands := some (lostCands ms.b i p t) },
+                          b := ms.b.update (.retSet t false), lost := t :: ms.lost }, ?_, ?_⟩
+        · simp [monC11set, hc, hkind, hret, hpi, hnt, hwn, hne']
+        · refine finish { ms with pw := ms.pw.set p { i with cands := some _ } } rfl rfl ?_
+          refine ⟨hi, hR.rk, by simp [hR.len], ?_, ?_, hR.lost, ?_⟩
+          · intro q j w' hq hjw
+            simp only at hq
+            rcases getElem?_set_cases ms.pw p q _ j hq with ⟨rfl, rfl⟩ | ⟨_, hx⟩
+            · simp [hwn] at hjw
+            · exact hR.won q j w' hx hjw
+          · intro q j L' hq hL'
+            simp only at hq
+            rcases getElem?_set_cases ms.pw p q _ j hq with ⟨rfl, rfl⟩ | ⟨_, hx⟩
+            · simp at hL'; subst hL'; exact ⟨w, hwL, hw⟩
+            · exact hR.cands q j L' hx hL'
+          · intro u thu q v' x' hu hts'
+            obtain ⟨j, hj, hjw⟩ := hR.retTrue u thu q v' x' hu hts'
+            by_cases hqp : q = p
+            · subst hqp; rw [hpi] at hj; cases hj; rw [hwn] at hjw; cases hjw
+            · exact ⟨j, by simp only; rw [getElem?_set_ne' _ _ _ _ (fun e => hqp e.symm)]; exact hj, hjw⟩
+  | retAwait t v x =>
+    simp [Ev.obs] at ho; subst ho
+    have hs0 := hs
+    have hnext : ∀ ms1 : SetSt, ms1.b = ms.b → RSet s ms1 →
+        RSet s' { ms1 with b := ms.b.update (.retAwait t v x) } := by
+      intro ms1 hb h1
+      exact rset_next s s' _ ms1 _ h1 hs (by simp) (by simp) hrk'
+    simp only [step] at hs
+    split at hs <;> try simp at hs
+    rename_i th ht
+    split at hs <;> try simp at hs
+    rename_i o k v' x' hts
+    obtain ⟨⟨rfl, rfl⟩, rfl⟩ := hs
+    have hl : t < ms.b.calls.length := by rw [hR.rk.len]; exact lt_of_getElem? ht
+    obtain ⟨c, hc⟩ : ∃ c, ms.b.calls[t]? = some c := ⟨ms.b.calls[t], by simp⟩
+    have hk := hR.rk.call t th c ht hc
+    have hret : c.ret = false := by rw [hk.ret, hts]; rfl
+    have hok := hi.th t th ht
+    -- a result published on a plain promise: the monitor accepts it and learns the winner
+    have viaPlain : ∀ p, published s (.plain p) = some (v, x) →
+        ∃ cw i, ms.b.calls[v - 1]? = some cw ∧ cw.kind = .set p x ∧ (v - 1) ∉ ms.lost ∧ v ≠ 0 ∧
+          ms.pw[p]? = some i ∧
+          winBy ms p (v - 1) = some { ms with pw := ms.pw.set p { i with won := some (v - 1) } } ∧
+          RSet s { ms with pw := ms.pw.set p { i with won := some (v - 1) } } := by
+      intro p hpub
+      obtain ⟨hv, hw, thw, hthw, hws⟩ := published_winner_thread s hi p v x hpub
+      have hwl : v - 1 < ms.b.calls.length := by rw [hR.rk.len]; exact lt_of_getElem? hthw
+      obtain ⟨cw, hcw⟩ : ∃ cw, ms.b.calls[v - 1]? = some cw := ⟨ms.b.calls[v - 1], by simp⟩
+      have hkw := hR.rk.call (v - 1) thw cw hthw hcw
+      have hp : p < s.proms.length := by
+        simp only [winnerOf] at hw
+        cases hpp : s.proms[p]? with
+        | none => simp [hpp] at hw
+        | some pr => exact lt_of_getElem? hpp
+      obtain ⟨i, hpi, hwin⟩ := winBy_ok s ms hR p (v - 1) hp hw
+      refine ⟨cw, i, hcw, ?_, ?_, by omega, hpi, hwin, rset_won s ms hR p (v - 1) i hpi hw⟩
+      · rcases hws with hh | hh <;> rw [hkw.kind, hh] <;> rfl
+      · intro hm
+        obtain ⟨thl, q, v2, x2, h1, h2⟩ := hR.lost (v - 1) hm
+        rw [hthw] at h1; cases h1
+        rcases hws with hh | hh <;> rw [hh] at h2 <;> cases h2
+    cases o with
+    | some p =>
+      have hkind : c.kind = .await p k := by rw [hk.kind, hts]; rfl
+      simp only [ThOK, hts] at hok
+      rcases hok with ⟨hv1, hpub⟩ | ⟨hv0, _⟩
+      · obtain ⟨cw, i, hcw, hkw, hnl, hv0, hpi, hwin, h1⟩ := viaPlain p hpub
+        refine ⟨{ ms with pw := ms.pw.set p { i with won := some (v - 1) },
+                          b := ms.b.update (.retAwait t v x) }, ?_,
+          hnext { ms with pw := ms.pw.set p { i with won := some (v - 1) } } rfl h1⟩
+        simp [monC11set, hc, hret, hv0, hcw, hkw, hkind, hnl, hwin]
+      · subst hv0
+        refine ⟨{ ms with b := ms.b.update (.retAwait t 0 x) }, ?_, hnext ms rfl hR⟩
+        simp [monC11set, hc, hret, hkind]
+    | none =>
+      have hkind : c.kind = .cawait k := by rw [hk.kind, hts]; rfl
+      simp only [ThOK, hts] at hok
+      rcases hok with ⟨hv1, r, hr1, hr2⟩ | ⟨hv0, _⟩
+      · cases r with
+        | plain p =>
+          obtain ⟨cw, i, hcw, hkw, hnl, hv0, hpi, hwin, h1⟩ := viaPlain p hr2
+          refine ⟨{ ms with pw := ms.pw.set p { i with won := some (v - 1) },
+                            b := ms.b.update (.retAwait t v x) }, ?_,
+          hnext { ms with pw := ms.pw.set p { i with won := some (v - 1) } } rfl h1⟩
+          simp [monC11set, hc, hret, hv0, hcw, hkw, hkind, hnl, hwin]
+        | fixed u xu =>
+          simp [published] at hr2
+          obtain ⟨rfl, rfl⟩ := hr2
+          obtain ⟨thu, hthu, hts'⟩ := hr1
+          have hul : u < ms.b.calls.length := by rw [hR.rk.len]; exact lt_of_getElem? hthu
+          obtain ⟨cu, hcu⟩ : ∃ cu, ms.b.calls[u]? = some cu := ⟨ms.b.calls[u], by simp⟩
+          have hku := hR.rk.call u thu cu hthu hcu
+          have hkc : cu.kind = .cres xu := by
+            rcases hts' with hh | hh <;> rw [hku.kind, hh] <;> rfl
+          refine ⟨{ ms with b := ms.b.update (.retAwait t (u + 1) xu) }, ?_, hnext ms rfl hR⟩
+          simp [monC11set, hc, hret, hcu, hkc, hkind]
+      · subst hv0
+        refine ⟨{ ms with b := ms.b.update (.retAwait t 0 x) }, ?_, hnext ms rfl hR⟩
+        simp [monC11set, hc, hret, hkind]
+
+/-- **C11 (observable form, set-once and await-result).** On every trace of the model: of all
+`SetResult` calls on one promise exactly the first returns true (a call that returns false lost
+against a call that was pending at that moment, and which then is the only one that may still return
+true), and every await that completes by result returns that call's value and error. -/
+theorem C11set_obs (es : List Ev) (s : St) (h : model.run model.init es = some s) :
+    monC11set.accepts (es.filterMap model.obs) = true :=
+  monitor_accepts_of_simulation model monC11set RSet rset_init
+    (fun s e s' ms hR hs => by
+      cases ho : model.obs e with
+      | none => exact set_sim_internal s s' e ms hR hs ho
+      | some o => exact set_sim_obs s s' e o ms hR hs ho) es s h
+
+end UtilModel.Promise
